@@ -113,7 +113,7 @@ func NewEngine(tape *Tape) *Engine {
 		declared: map[uint64]string{},
 		wakeCh:   make(chan struct{}, 1),
 		Tape:     tape,
-		MaxSteps: 200000,
+		MaxSteps: 1500000,
 		Horizon:  24 * time.Hour,
 		siteOrd:  map[string]int{},
 		Faults:   map[string]int{},
